@@ -1,7 +1,23 @@
 #!/usr/bin/env python3
 """Regenerates MANIFEST.json from bin/props.py (claimed checks) and the
 not-applicable table below."""
-import json, os, sys
+import json
+# additions made while extending the checks against seeded changes (kept apart from the original texts in props.py)
+ADD = {
+ "C03": "Deliberately invalid artefacts: exactly one site per artefact (chosen among all sites counted by a fault-free probe pass) is made illegal - a match/rep whose distance reaches just outside the dictionary (first symbol, after a dictionary reset, after the window wrapped) or an LZMA2 chunk sequence the grammar forbids (first chunk without dictionary reset in any Block, LZMA chunk without properties where required, reserved control byte); notice flags (TELL_ANY_CHECK, TELL_NO_CHECK) varied.",
+ "C04": "Field-level faults: a count or size field replaced by a boundary value (2^60, 2^63-1, 2^32, ...), in an Index the Number of Records; CRC32 of a damaged Block Header / Index recomputed now and then; the single-call decoders get artefacts of their own kind; Filter Flags artefacts; every value of the first properties byte of every filter, directly and as Filter Flags, with allocator balance after each.",
+ "C05": "CRC-consistent rewrites now include every single bit of every CRC32-protected field (Stream Flags in header and footer, Backward Size, whole Block Headers, whole Index) flipped with the CRC32 recomputed; the independent reference parser decides whether the rewritten file is still valid (then the bytes must equal the specification's decoding) or must be rejected. The quick tier completes the sweep for the first five of the twelve decoder x delivery combinations, the thorough tier for all.",
+ "C06": "Encoder determinism also on low-entropy data with long verbatim repeats, normal mode with nice_len 8..200, input arriving 1..64 bytes per call (look-ahead territory of the match finder).",
+ "C08": "Re-initialisation also with another Block size; lzma_filters_update() with the chain in use between two lzma_code() calls of one segment (while all workers are busy); chains that must be refused offered at any moment (the threaded encoder's documented delayed refusal is accepted as a refusal).",
+ "C09": "File-info limits over synthesised multi-Stream files with up to 20 000 Records per Stream; threaded decoder on big equal-sized Blocks with different declared dictionaries (threaded Block followed by a direct-mode Block).",
+ "C10": "Re-initialisation sweep: coder A used (completed or abandoned part-way) on the handle, handle re-initialised for coder B (the same kind more often than not), the k-th allocation counted from B's init fails; lzma_filters_update() after a reported failure.",
+ "C11": "The handle may have served another coder before (no lzma_end in between): nothing of that coder, in particular not its set of supported actions, may survive.",
+ "C12": "Chains that must be refused (lc+lp>4, dict 100, unaligned BCJ start offset that passes the memory-usage validation and fails in the filter's init, delta dist 257, nice_len 1, unknown filter, LZMA2 twice) offered as the first call, between Blocks, right after an accepted change and mid-Block.",
+ "C13": "Histories continue on decoded Indexes (encode -> decode -> append ...); file-info over files with Stream Padding around and beyond the decoder's 8 KiB window.",
+ "C16": "Notice flags (TELL_ANY_CHECK, TELL_NO_CHECK, TELL_UNSUPPORTED_CHECK; IGNORE_CHECK on undamaged artefacts) varied; one illegal distance site per .lzma file / .lz member.",
+ "C18": "Inputs with every dictionary-size form (2^n, 2^n+2^(n-1), arbitrary) for .lzma and .xz and lc/lp/pb variants; compressed sizes at and next to multiples of the tools' 8 KiB buffers; the round trip is xz -k followed by the tool's own xz -dc of the file it wrote. On rejected input the reference is either library decode (one-shot or with the tools' 8 KiB buffers), see known finding KF-C06-2.",
+}
+import os, sys
 V = os.path.dirname(os.path.dirname(os.path.abspath(__file__)))
 sys.path.insert(0, os.path.join(V, "bin"))
 import props
@@ -26,7 +42,7 @@ for pid in ALL:
         "evidence_file": "evidence/%s.json" % pid,
         "replay_cmd_template": "bin/vcheck replay {path}",
         "engine": c.get("engine", "lzsim"),
-        "level_claimed": {"category": c["level"], "text": c["level_text"], "design_ref": "DESIGN.md section 6, " + pid},
+        "level_claimed": {"category": c["level"], "text": c["level_text"] + (" " + ADD[pid] if pid in ADD else ""), "design_ref": "DESIGN.md section 6, " + pid},
         "level_note": c["level_note"],
         "technique": c.get("technique", "deterministic simulation with fault injection: seeded search over schedules, delivery and fault sequences; oracle checked per run"),
     })
